@@ -397,27 +397,162 @@ def _symbolic_twin(ix, gcls, n_axes, grid):
 # ----------------------------------------------------------------------------
 # (c) residual test before the result is handed out
 # ----------------------------------------------------------------------------
+IDENTITY_METHODS = {"tocsc", "tocsr", "tocoo", "todia", "tolil", "asformat", "toarray", "todense", "copy", "ravel", "flatten", "reshape", "squeeze", "astype", "asfptype"}
+IDENTITY_FUNCS = {"ravel", "asarray", "asanyarray", "array", "ascontiguousarray", "squeeze", "reshape", "csc_matrix", "csr_matrix", "csc_array", "csr_array"}
+SOLVERS = {"spsolve", "lsmr", "lsqr", "cg", "gmres", "bicgstab", "minres", "lgmres", "splu", "factorized"}
+
+
+class _LinEval:
+    """values of the Poisson-solver closure as sympy terms over M (matrix), V (vector),
+    A (right-hand side array) and one uninterpreted symbol per solver call; format
+    conversions and reshapes are the identity, products are (commutative) products --
+    enough to decide *which* system a residual test looks at"""
+
+    def __init__(self):
+        self.n_solve = 0
+        self.solves: dict[str, tuple] = {}
+
+    def ev(self, e: ast.AST, env: dict):
+        if isinstance(e, ast.Constant) and isinstance(e.value, (int, float)) and not isinstance(e.value, bool):
+            return sp.nsimplify(e.value, rational=True)
+        if isinstance(e, ast.Name):
+            if e.id in env:
+                return env[e.id]
+            return sp.Symbol("free_" + e.id)
+        if isinstance(e, ast.UnaryOp) and isinstance(e.op, ast.USub):
+            return -self.ev(e.operand, env)
+        if isinstance(e, ast.BinOp):
+            l, r = self.ev(e.left, env), self.ev(e.right, env)
+            if isinstance(e.op, ast.Add):
+                return l + r
+            if isinstance(e.op, ast.Sub):
+                return l - r
+            if isinstance(e.op, (ast.Mult, ast.MatMult)):
+                return l * r
+            if isinstance(e.op, ast.Div):
+                return l / r
+            if isinstance(e.op, ast.Pow):
+                return l**r
+        if isinstance(e, ast.Subscript):
+            base = self.ev(e.value, env)
+            # `lsmr(...)[0]` selects the solution; `x[:, 0]` / `x[...]` keep the values
+            return base
+        if isinstance(e, ast.Call):
+            fn = dotted(e.func)
+            last = fn.split(".")[-1]
+            args = [self.ev(a, env) for a in e.args]
+            if isinstance(e.func, ast.Attribute) and last in IDENTITY_METHODS and not fn.startswith(("np.", "numpy.", "sparse.")):
+                return self.ev(e.func.value, env)
+            if isinstance(e.func, ast.Attribute) and last == "dot" and not fn.startswith(("np.", "numpy.")) and len(args) == 1:
+                return self.ev(e.func.value, env) * args[0]
+            if last in IDENTITY_FUNCS and args:
+                return args[0]
+            if last == "dot" and len(args) == 2:
+                return args[0] * args[1]
+            if last in SOLVERS and len(args) >= 2:
+                self.n_solve += 1
+                x = sp.Symbol(f"X{self.n_solve}")
+                self.solves[str(x)] = (last, args[0], args[1])
+                return x
+            recv = [self.ev(e.func.value, env)] if isinstance(e.func, ast.Attribute) and not fn.startswith(("np.", "numpy.", "sparse.", "scipy.")) else []
+            return sp.Function("f_" + last)(*(recv + args))
+        if isinstance(e, ast.Attribute):
+            return sp.Function("attr_" + e.attr)(self.ev(e.value, env))
+        return sp.Symbol("opaque_" + type(e).__name__ + str(getattr(e, "lineno", "")))
+
+
 def check_residual_guard(rep: Report, ix):
     from ..cfg_lite import paths_to  # local light-weight path enumeration
 
+    fac = ix.func("pde/backends/scipy/operators/common.py", "make_general_poisson_solver")
     f = ix.func("pde/backends/scipy/operators/common.py", "make_general_poisson_solver.solve_poisson")
     rep.saw("functions", f.ref)
-    res = paths_to(f.node, lambda st: _stores_into(st, "out"))
+    params = [a.arg for a in fac.node.args.args]
+    if params[:2] != ["matrix", "vector"]:
+        raise AnalysisError(f"{fac.ref}: expected parameters (matrix, vector, ...), found {params}")
+    M, V, A = sp.Symbol("M"), sp.Symbol("V"), sp.Symbol("A")
+    lin = _LinEval()
+    env0: dict = {"matrix": M, "vector": V}
+    for st in fac.node.body:
+        if st is f.node:
+            break
+        if isinstance(st, ast.Assign) and len(st.targets) == 1 and isinstance(st.targets[0], ast.Name):
+            env0[st.targets[0].id] = lin.ev(st.value, env0)
+    cparams = [a.arg for a in f.node.args.args]
+    if cparams[:2] != ["arr", "out"]:
+        raise AnalysisError(f"{f.ref}: expected parameters (arr, out), found {cparams}")
+    env0["arr"] = A
+
+    def event(st):
+        if isinstance(st, ast.Assign) and len(st.targets) == 1 and isinstance(st.targets[0], ast.Name):
+            return "assign"
+        if isinstance(st, (ast.If, ast.While)):
+            return "test"
+        return None
+
+    store_nodes = {n.lineno: n for n in ast.walk(f.node) if isinstance(n, ast.stmt) and _stores_into(n, "out")}
+    res = paths_to(f.node, lambda st: _stores_into(st, "out"), event=event)
     n_paths = 0
     for path in res:
         n_paths += 1
-        guarded = any(_is_residual_test(t, pol) for t, pol in path.tests) or any(_is_residual_test(t, pol) for t, pol in path.tests_passed)
+        env = dict(env0)
+        tests = list(path.tests)
+        checked = []  # (residual term, atol term, source)
+        for kind, st in path.events:
+            if kind == "assign":
+                env[st.targets[0].id] = lin.ev(st.value, env)
+            else:
+                if not tests:
+                    break
+                test, pol = tests.pop(0)
+                if test is not st.test:
+                    raise AnalysisError(f"{f.ref}: path bookkeeping lost track of the branch at line {st.lineno}")
+                if _is_residual_test(test, pol):
+                    t = test
+                    while isinstance(t, ast.UnaryOp):
+                        t = t.operand
+                    if len(t.args) < 2:
+                        continue
+                    kw = {k.arg: k.value for k in t.keywords}
+                    atol = lin.ev(kw["atol"], env) if "atol" in kw else sp.Rational(1, 10**8)
+                    rtol = lin.ev(kw["rtol"], env) if "rtol" in kw else sp.Rational(1, 10**5)
+                    checked.append((sp.expand(lin.ev(t.args[0], env) - lin.ev(t.args[1], env)), atol, rtol, ast.unparse(t)))
+        store = store_nodes[path.target_line]
+        stored = sp.expand(lin.ev(store.value, env))
+        guarded = False
+        why = "no residual test `allclose(matrix.dot(x), rhs)` was passed"
+        for resid, atol, rtol, src in checked:
+            want = sp.expand(M * stored - (A - V))
+            if want == 0:
+                continue
+            ratio = sp.simplify(resid / want)
+            if ratio.free_symbols & (stored.free_symbols | {A}):
+                why = f"the test `{src}` does not look at the residual matrix*x - (arr - vector) of the value stored into `out` (it compares `{resid}` with 0)"
+                continue
+            eff_atol = sp.simplify(atol / sp.Abs(ratio)) if ratio != 0 else sp.oo
+            if ratio in (1, -1) or eff_atol.is_number:
+                guarded = True
+                rep.sample({"solve_poisson path": n_paths, "residual test": src, "residual": str(resid), "stored": str(stored), "atol": str(atol), "rtol": str(rtol)})
+                if not (atol.is_number and rtol.is_number):
+                    guarded = False
+                    why = f"the tolerances of `{src}` are not constants (atol={atol}, rtol={rtol}): acceptance depends on the grid / data"
+                break
+            why = (
+                f"the test `{src}` is applied to the system multiplied by `{ratio}`: the absolute tolerance {atol} then corresponds to {eff_atol} for the "
+                "discrete problem matrix*x + vector = arr, i.e. it depends on the discretisation, and non-solutions of singular problems are accepted on fine grids"
+            )
         ok = guarded
-        rep.oblige(f"solve_poisson:path{n_paths}:residual-test-before-store", ok, [ast.unparse(t)[:80] + f" == {pol}" for t, pol in path.tests])
+        rep.oblige(f"solve_poisson:path{n_paths}:stored value passed the residual test of the discrete problem", ok, why if not ok else str(stored))
         if not ok:
+            rule = "C18.residual-rescaled" if "multiplied by" in why or "tolerances" in why else "C18.unchecked-result"
             rep.violation(
-                "C18.unchecked-result",
+                rule,
                 f"{f.ref}::store-out",
-                "a path stores the solver result into `out` without having passed a residual test `allclose(mat.dot(result), rhs)`: "
-                + " ; ".join(ast.unparse(t)[:60] + f"=={pol}" for t, pol in path.tests),
+                f"a path stores `{ast.unparse(store.value)}` into `out` although {why}; branch decisions: " + " ; ".join(ast.unparse(t)[:60] + f"=={pol}" for t, pol in path.tests),
                 line=path.target_line,
             )
     rep.floor("paths that store the Poisson solution", n_paths, 2)
+    rep.oblige("solver calls modelled as uninterpreted results", bool(lin.solves), {k: v[0] for k, v in lin.solves.items()})
 
 
 def _stores_into(st: ast.stmt, name: str) -> bool:
@@ -437,10 +572,8 @@ def _is_residual_test(test: ast.expr, polarity: bool) -> bool:
         neg = not neg
         t = t.operand
     if isinstance(t, ast.Call) and dotted(t.func).split(".")[-1] in ("allclose", "isclose") and t.args:
-        a0 = t.args[0]
-        has_dot = any(isinstance(n, ast.Call) and dotted(n.func).endswith(".dot") for n in ast.walk(a0)) or any(isinstance(n, ast.BinOp) and isinstance(n.op, ast.MatMult) for n in ast.walk(a0))
-        if has_dot:
-            return polarity != neg
+        # (what the two sides are is decided semantically by the caller)
+        return polarity != neg
     return False
 
 
